@@ -53,6 +53,20 @@ ApplyAt(t, m, at, k, s) ==
            sub == IF Has(m1, fd.num) THEN Get(m1, fd.num).m ELSE EmptyMsg
        IN Put(m1, fd.num, [m |-> ApplyAt(fd.msg, sub, at, k + 1, s)])
 
+\* in-place overwrite of every bytes value of the tree (the harness flips all bits of the backing arrays)
+RECURSIVE Scribble(_, _), ScribbleV(_, _)
+FlipB(b) == [i \in 1..Len(b) |-> 255 - b[i]]
+ScribbleV(fd, v) ==
+  IF "m" \in DOMAIN v THEN [m |-> Scribble(fd.msg, v.m)]
+  ELSE IF "l" \in DOMAIN v THEN [l |-> [i \in 1..Len(v.l) |-> ScribbleV(fd, v.l[i])]]
+  ELSE IF fd.kind = "bytes" THEN [s |-> FlipB(v.s)] ELSE v
+Scribble(t, m) ==
+  [m EXCEPT !.f = [i \in 1..Len(m.f) |->
+     LET fd == FieldOf(t, m.f[i][1])  v == m.f[i][2] IN
+     <<m.f[i][1],
+       IF fd.ismap THEN [p |-> [e \in 1..Len(v.p) |-> <<v.p[e][1], ScribbleV(FieldOf(fd.msg, 2), v.p[e][2])>>]]
+       ELSE ScribbleV(fd, v)>>]]
+
 MutOps == {"set", "clear", "mut", "app", "trunc", "lset", "mset", "mdel", "setu"}
 Limit(s) == IF s.limit = 0 THEN 10000 ELSE s.limit
 
@@ -69,7 +83,7 @@ UnmarshalRes(t, cur, s) ==
 \* (the harness skips it on the real object as well).
 Skipped(objs, s) ==
   \/ (IsDirty(objs[s.o + 1]) /\ ~(s.op = "reset" \/ (s.op = "unmarshal" /\ ~s.merge)))
-  \/ (s.op \in {"merge", "equal"} /\ IsDirty(objs[s.o2 + 1]))
+  \/ (s.op \in {"merge", "equal", "cat", "umerge"} /\ IsDirty(objs[s.o2 + 1]))
 
 \* the objects after the step (objects are 0-based in steps, 1-based here)
 Apply(t, objs, s0) ==
@@ -87,6 +101,12 @@ Apply(t, objs, s0) ==
          IF Utf8OK(t, cur) THEN [objs EXCEPT ![s.o2 + 1] = cur] ELSE objs
     [] s.op = "merge" -> [objs EXCEPT ![o] = MergeMsg(t, cur, objs[s.o2 + 1])]
     [] s.op = "clone" -> [objs EXCEPT ![s.o2 + 1] = cur]
+    [] s.op = "cat" ->
+         \* Unmarshal(Marshal(o) ++ Marshal(o2)) into o3: the merge of the two contents (C07)
+         IF Utf8OK(t, cur) /\ Utf8OK(t, objs[s.o2 + 1]) THEN [objs EXCEPT ![s.o3 + 1] = MergeMsg(t, cur, objs[s.o2 + 1])] ELSE objs
+    [] s.op = "umerge" ->
+         IF Utf8OK(t, objs[s.o2 + 1]) THEN [objs EXCEPT ![o] = MergeMsg(t, cur, objs[s.o2 + 1])] ELSE objs
+    [] s.op = "scribble" -> [objs EXCEPT ![o] = Scribble(t, cur)]
     [] OTHER -> objs      \* marshal, size, equal, checkinit: read-only
 
 \* the expected result r of a step, where it is a function of the pre-state ("" marks: see StepOK)
@@ -109,6 +129,8 @@ ResultOK(t, objs, s, ob) ==
     [] s.op = "size" -> ob.r[1] = ob.r[2] \/ (ob.r[3] /\ ob.r[1] >= ob.r[2])
     [] s.op = "unmarshal" -> ob.r = UnmarshalErr(t, cur, s)
     [] s.op = "rt" -> ob.r = (IF Utf8OK(t, cur) THEN "" ELSE "utf8")
+    [] s.op = "cat" -> ob.r = (IF Utf8OK(t, cur) /\ Utf8OK(t, objs[s.o2 + 1]) THEN "" ELSE "utf8")
+    [] s.op = "umerge" -> ob.r = (IF Utf8OK(t, objs[s.o2 + 1]) THEN "" ELSE "utf8")
     [] s.op = "equal" -> ob.r = EqMsg(t, cur, objs[s.o2 + 1])
     [] s.op = "checkinit" -> ob.r = Initialized(t, cur)
     [] OTHER -> TRUE
